@@ -1056,7 +1056,7 @@ class DriftInterpolator:
         basis = np.linspace(0, 1, num_knots)
 
         if num_knots == 1:
-            xa = knots_row[0] + self.u[None, :] * self.scan_fast[0] * (self.input_shape[0] - 1)
+            xa = knots_row[0] + self.u[None, :] * self.scan_fast[0] * (self.input_shape[1] - 1)
             ya = knots_row[1] + self.u[None, :] * self.scan_fast[1] * (self.input_shape[1] - 1)
         elif num_knots == 2:
             xa = interp1d(basis, knots_row[0], kind="linear", assume_sorted=True)(self.u)
